@@ -59,7 +59,9 @@ def WHILE(c, body): return {"k": "while", "c": c, "body": list(body)}
 def FOR(v, stop, body, start=None, step=None):
     return {"k": "for", "v": v, "start": start if start is not None else I(0), "stop": stop,
             "step": step if step is not None else I(1), "body": list(body), "form": 1 if start is None and step is None else (2 if step is None else 3)}
-def DEF(params, body, globals_=()): return {"params": list(params), "globals": list(globals_), "body": list(body)}
+def DEF(params, body, globals_=(), ann=None):
+    """ann: {parameter: annotation text} - a layout choice only (Python does not enforce annotations; the specification ignores them)."""
+    return {"params": list(params), "globals": list(globals_), "body": list(body), "ann": dict(ann or {})}
 def PROG(setup, loop=None, defs=None, npass=3, ain=(), pid="p", lead=0):
     """lead: how many prologue statements stand BEFORE the helper definitions in the script text (a layout choice only: the
     statements must not call the helpers; the meaning - and the specification's execution - is the same)."""
@@ -252,7 +254,8 @@ def render(prog) -> str:
     lead = int(prog.get("lead", 0))
     L += rblock(prog["setup"][:lead], 0) if lead else []
     for f, d in prog["defs"].items():
-        L.append(f"def {f}({', '.join(d['params'])}):")
+        ann = d.get("ann", {})
+        L.append(f"def {f}({', '.join(q + (': ' + ann[q] if q in ann else '') for q in d['params'])}):")
         for g in d["globals"]:
             L.append(f"    global {g}")
         L += rblock(d["body"], 1)
@@ -385,11 +388,13 @@ def declared_types(cpp: str) -> dict:
         if m and depth == 0:
             fn = m.group(2)
             if fn not in ("setup", "loop"):
-                decl[f"{fn}.return"] = _norm_type(m.group(1))
+                # a helper may be emitted in several variants (one per call signature): a parameter / result is declared wide
+                # enough when SOME variant is (the per-call-site choice of the variant is judged on the printed values)
+                decl[f"{fn}.return"] = _wider(decl.get(f"{fn}.return"), _norm_type(m.group(1)))
                 for p in [x.strip() for x in m.group(3).split(",") if x.strip()]:
                     parts = p.replace("&", " ").replace("const ", "").split()
                     if len(parts) >= 2:
-                        decl[f"{fn}.{parts[-1]}"] = _norm_type(" ".join(parts[:-1]))
+                        decl[f"{fn}.{parts[-1]}"] = _wider(decl.get(f"{fn}.{parts[-1]}"), _norm_type(" ".join(parts[:-1])))
         d = _DECL.match(line)
         if d and not d.group(2).startswith("__"):
             key = d.group(2) if (depth == 0 or fn in ("setup", "loop", None)) else f"{fn}.{d.group(2)}"
@@ -398,6 +403,17 @@ def declared_types(cpp: str) -> dict:
         if depth == 0:
             fn = None
     return decl
+
+
+_RANK = {"void": -1, "bool": 0, "int": 1, "long": 1, "float": 2}
+
+
+def _wider(old, new: str) -> str:
+    if old is None or old == new:
+        return new
+    if old in _RANK and new in _RANK:
+        return new if _RANK[new] > _RANK[old] else old
+    return "mixed"          # variants of different families (a number here, a String there): LangTrace!Covers judges no single type
 
 
 def _norm_type(t: str) -> str:
